@@ -572,6 +572,30 @@ func runC08(w *World, p map[string]int) {
 		nw.Issued = nil
 		w.CheckWallet(inst, nw, "C08")
 		w.Stat("check.reimport")
+		// what the node announces (again) from now on reaches the re-imported
+		// wallet like any other: nothing of the removed wallet's pending set may
+		// linger in memory and make the wallet ignore it
+		for k := 0; k < 4 && len(w.Violations) == 0; k++ {
+			tx, free := w.AnnounceAgain(t)
+			if tx == nil {
+				break
+			}
+			if !quiesceAll(w, "C08", 30000) || !w.AllDelivered() {
+				return
+			}
+			if !free || !relevantToWallets(w, inst, tx) {
+				continue
+			}
+			pend, ok := w.PendingSet(inst)
+			if !ok {
+				return
+			}
+			if _, in := pend[tx.TxHash()]; !in {
+				w.Violate("C08.announcement-ignored-after-reimport", "transaction %s, announced again after wallet %s was removed and imported again (all parents confirmed, no rival), is not in the pending set", tx.TxHash(), victim.ID)
+				return
+			}
+			w.Stat("check.announcement_after_reimport")
+		}
 	}
 	w.Sample = fmt.Sprintf("C08 wallets=%d victim-coins=%d holdStill=%v height=%d forks=%d", nW, len(vo.Utxos), holdStill, w.Node.Tip().Height, w.Stats["op.fork"])
 }
